@@ -47,6 +47,8 @@ def expr(e, flags: bool = False, ids: dict | None = None) -> str:
 
 def _head(e, flags, ids) -> str:
     h = HEAD[cls(e)]
+    if h in ("NP", "NR") and isinstance(e._parameter, float):
+        h += "~"            # n was given (and, in a defective build, is stored) as an integral float
     if flags:
         f = ("r" if e._is_fully_reduced else "") + ("f" if e._evaluation_failed else "")
         if f:
@@ -76,7 +78,7 @@ def _expr(e, flags, ids, out) -> None:
         out.append(h)
         _expr(e._inner, flags, ids, out)
     elif c in ("NthPower", "NthRoot"):
-        out += [h, str(e._parameter)]
+        out += [h, str(int(e._parameter))]      # (storing n as anything but int is C16's business)
         _expr(e._inner, flags, ids, out)
     elif c in ("Exponential", "Logarithm"):
         out += [h, num(e._parameter)]
@@ -177,6 +179,7 @@ def parse_expr(toks: list[str], i: int = 0):
     """-> (tree, next index); tree = (head, flags, payload...) with numbers as MNum"""
     t = toks[i]
     head, _, fl = t.partition(".")
+    head = head.rstrip("~")
     i += 1
     if head == "C":
         return ("C", fl, MNum(toks[i])), i + 1
@@ -317,6 +320,8 @@ def _build_raw(toks, i, objs):
     i += 1
     t, _, oid = t.partition("@")
     head = t.partition(".")[0]
+    nfloat = head.endswith("~")
+    head = head.rstrip("~")
 
     def done(obj):
         if oid:
@@ -353,7 +358,10 @@ def _build_raw(toks, i, objs):
         u, i = _build_raw(toks, i, objs)
         if oid and oid in objs:
             return objs[oid], i
-        return done({"NP": X.NthPower, "NR": X.NthRoot}[head](u, n)), i
+        # n is handed to the constructor as an integral float in a deterministic quarter of the
+        # positions (legal, and equivalent on a correct build: the constructor stores the integer)
+        spell_float = nfloat or (i + n) % 4 == 0
+        return done({"NP": X.NthPower, "NR": X.NthRoot}[head](u, float(n) if spell_float else n)), i
     if head in ("E", "L"):
         b = raw_num(toks[i]); i += 1
         u, i = _build_raw(toks, i, objs)
